@@ -425,7 +425,7 @@ fn run_planned(prop: &'static str, args: &Args, ev: &mut Ev, planned: Vec<Planne
 
 /// the module as a user gets it on disk: `emit_wasm_file` onto a path that already holds an older,
 /// longer build. What is instantiated later is the file, so it has to be the module `emit_wasm` returns.
-fn file_output_differs(wasm: &[u8], do_gc: bool, verif: &std::path::Path) -> Option<String> {
+pub fn file_output_differs(wasm: &[u8], do_gc: bool, verif: &std::path::Path) -> Option<String> {
     let mut m = crate::pipe::parse(wasm, &Cfg::default()).ok()?;
     if do_gc {
         crate::pipe::gc(&mut m).ok()?;
